@@ -25,7 +25,8 @@ Init0(size, lay) ==
      last |-> "none",   \* none | read | write : the ISO C direction rule
      buf |-> "no",      \* setvbuf mode
      pend |-> FALSE,    \* written bytes may still sit in the stream buffer
-     nw |-> 0]          \* number of writes so far = tag of the next payload
+     nw |-> 0,          \* number of writes so far = tag of the next payload
+     it |-> "none"]     \* kept lines() iterator: none | cur (current handle) | old (an earlier handle)
 
 (* ---- sparse content ------------------------------------------------------ *)
 Covers(e, x) == e[1] <= x /\ x < e[1] + e[2]
@@ -132,7 +133,8 @@ DoOpen(st, m) ==
                       !.ov = IF TruncM(m) THEN <<>> ELSE @,
                       !.opened = TRUE, !.mode = m, !.closed = FALSE,
                       !.cur = IF AppendM(m) THEN -1 ELSE 0,
-                      !.last = "none", !.buf = "no", !.pend = FALSE],
+                      !.last = "none", !.buf = "no", !.pend = FALSE,
+                      !.it = IF @ = "cur" THEN "old" ELSE @],
            <<"ok">>)
 
 DoWrite(st, n) ==
@@ -150,10 +152,19 @@ DoSeek(st, wh, off) ==
     IN IF r < 0 THEN R(st, <<"fail">>)
        ELSE R([st EXCEPT !.cur = r, !.last = "none", !.pend = FALSE], <<"num", r>>)
 
-Apply(st, o) ==
+(* A kept iterator (it = f:lines()) is repeated read("*l") on its handle:
+   while that handle is open a call returns the next line at the CURRENT
+   cursor, once it is closed the call raises (io_readline: "file is already
+   closed"). *)
+Apply0(st, o) ==
     IF o.op = "open" THEN DoOpen(st, o.a)
     ELSE IF o.op = "peek" THEN R(st, Data(st, 0, st.len))
+    ELSE IF o.op = "calliter" THEN
+         (IF st.it = "old" \/ st.closed THEN R(st, <<"error">>)
+          ELSE LET r == LineAt(st, st.cur) IN R([st EXCEPT !.cur = r.cur, !.last = "read"], r.res))
     ELSE IF st.closed THEN R(st, <<"error">>)
+    ELSE IF o.op = "getiter" THEN
+         (IF Readable(st.mode) THEN R([st EXCEPT !.it = "cur"], <<"ok">>) ELSE R(st, <<"any">>))
     ELSE IF o.op \in {"read", "readline", "readall", "readnum", "lines"} /\ ~Readable(st.mode)
          THEN R(st, IF o.op = "lines" THEN <<"any">> ELSE <<"fail">>)
     ELSE IF o.op = "write" /\ ~Writable(st.mode) THEN R(st, <<"fail">>)
@@ -188,9 +199,15 @@ Apply(st, o) ==
 (* position of an append stream is unknown (-1) until a seek or a write.   *)
 (* Operations on a closed handle are all in scope (they must raise).       *)
 (***************************************************************************)
-Legal(st, o) ==
+Apply(st, o) == Apply0(st, NormOp(o))
+
+Legal0(st, o) ==
     IF o.op = "open" THEN ~st.opened \/ st.closed
     ELSE IF o.op = "peek" THEN st.ex /\ ~st.pend
+    ELSE IF o.op = "calliter" THEN
+         /\ st.it # "none"
+         /\ (st.it = "old" \/ st.closed \/ (st.last # "write" /\ st.cur # -1))
+    ELSE IF o.op = "getiter" THEN st.opened /\ (st.closed \/ Readable(st.mode))
     ELSE /\ st.opened
          /\ \/ st.closed
             \/ CASE o.op \in {"read", "readline", "readall", "lines"} ->
@@ -202,12 +219,14 @@ Legal(st, o) ==
                  [] o.op = "setvbuf" -> ~st.pend
                  [] OTHER -> TRUE
 
+Legal(st, o) == Legal0(st, NormOp(o))
+
 (* what a step record carries to the driver (pre-state flags: only used to
    name the case when the real code disagrees) *)
 StepRec(st, o, e) ==
     [op |-> o.op, a |-> o.a, n |-> o.n, tag |-> st.nw, exp |-> e,
      pre |-> [cur |-> st.cur, len |-> st.len, last |-> st.last, pend |-> st.pend,
-              buf |-> st.buf, closed |-> st.closed, mode |-> st.mode]]
+              buf |-> st.buf, closed |-> st.closed, mode |-> st.mode, it |-> st.it]]
 
 (* the file on disk once the handle is closed *)
 Final(st) == IF st.ex THEN Data(st, 0, st.len) ELSE <<"absent">>
